@@ -59,6 +59,7 @@ def gen_policy(rng, o):
         for k in rng.sample(KLASSES, rng.randint(1, 4)):
             p["strat_tab"][k] = rng.random() < 0.35
     p["has_rc"] = rng.random() < o.get("p_rc", 0.5)
+    p["strat_shape"] = rng.randrange(12)      # which signature the scripted strategies are given (driver only)
     p["handler_p"] = rng.random() < o.get("p_handler", 0.25)
     p["bs_p"] = rng.random() < o.get("p_bs", 0.3)
     p["sleeper_p"] = rng.random() < 0.4
@@ -167,8 +168,10 @@ def gen_call(rng, pidx, p, o, entries=None):
     variant = {}
     if is_async:
         variant = {"throw": rng.random() < 0.5, "suspend_op": rng.random() < 0.5, "suspend_bs": rng.random() < 0.5,
-                   "suspend_sleep": rng.random() < 0.5, "sync_hooks": rng.random() < 0.3}
+                   "suspend_sleep": rng.random() < 0.5, "sync_hooks": rng.random() < 0.3, "awaitable_obj": rng.random() < 0.3}
     variant["bare"] = rng.randrange(2)
+    variant["hook_shape"] = rng.randrange(3)
+    variant["cancel_bridge"] = rng.random() < 0.3      # "cancelled" is raised as a CancelledError subclass that is also an Exception
     variant["tl_object"] = rng.random() < 0.3
     env = gen_env(rng, p, c, dict(o, _is_async=is_async))
     if is_async and (env["bs_cancel"] or env["sleep_cancel"]) and rng.random() < 0.7:
